@@ -54,6 +54,20 @@ def main() -> int:
             print(d.name, verdict, flush=True)
         finally:
             shutil.rmtree(tmp, ignore_errors=True)
+    # results are kept in seeded/regression.json so that `--only` re-runs update single rows
+    jp = ROOT / "seeded" / "regression.json"
+    store: dict = {}
+    if jp.exists():
+        store = json.loads(jp.read_text())
+    elif (ROOT / "seeded" / "REGRESSION.md").exists() and a.only:
+        for ln in (ROOT / "seeded" / "REGRESSION.md").read_text().splitlines():
+            cells = [c.strip() for c in ln.strip().strip("|").split(" | ")]
+            if ln.startswith("| C") and len(cells) >= 4:
+                store[cells[0]] = cells + [""] * (5 - len(cells))
+    for r in rows:
+        store[r[0]] = [str(x) for x in r] + [""] * (5 - len(r))
+    jp.write_text(json.dumps(store, indent=1, sort_keys=True))
+    rows = [tuple(store[k]) for k in sorted(store)]
     out = ["# Seeded changes against the current checks", "",
            f"Produced by `tools/seeded_regress.py --seeds {a.seeds}` (quick tier; scratch copies of the repository, removed afterwards).", "",
            "| seed | property | own check | runs | first reported failure |", "|---|---|---|---|---|"]
